@@ -97,7 +97,7 @@ def _parse_retry_after(value: str) -> float | None:
     except ValueError:
         try:
             parsed = parsedate_to_datetime(raw)
-        except (TypeError, ValueError, IndexError):
+        except (TypeError, ValueError, IndexError, OverflowError):
             return None
         if parsed is None:
             return None
@@ -105,13 +105,19 @@ def _parse_retry_after(value: str) -> float | None:
             parsed = parsed.replace(tzinfo=UTC)
         delta = (parsed - datetime.now(UTC)).total_seconds()
         return max(0.0, delta)
-    return max(0.0, float(seconds))
+    try:
+        return max(0.0, float(seconds))
+    except OverflowError:
+        return None
 
 
 def _coerce_retry_after(exc: BaseException) -> float | None:
     direct = getattr(exc, "retry_after", None)
     if isinstance(direct, int | float):
-        return max(0.0, float(direct))
+        try:
+            return max(0.0, float(direct))
+        except OverflowError:
+            return None
     if isinstance(direct, str):
         parsed = _parse_retry_after(direct)
         if parsed is not None:
